@@ -68,7 +68,7 @@ NodeOf(e) ==
                      perm |-> 0, uid |-> 0, gid |-> 0]
     [] OTHER     -> [p |-> e.p, k |-> "D", d |-> << >>, sz |-> 0, szbig |-> FALSE, t |-> "", tc |-> << >>, tabs |-> FALSE,
                      perm |-> e.perm, uid |-> 0, gid |-> 0]
-TreeOf(arr) == [p \in {e.p : e \in Rng(arr)} |-> NodeOf(CHOOSE e \in Rng(arr) : e.p = p)]
+TreeOf(arr) == LET R == Rng(arr) IN [p \in {e.p : e \in R} |-> NodeOf(CHOOSE e \in R : e.p = p)]
 H(i) == TraceLog[i]
 Ops(i) == H(i).ops
 NOps(i) == Len(Ops(i))
@@ -169,8 +169,11 @@ ReadOk(i, s, tr, o) ==
               IN /\ o.rcount = want
                  /\ o.rdlen = want
                  /\ o.rdata = ReadBytes(f.d, o.off, want)
-                 /\ \E c \in (IF r = o.h THEN KStates(i, s, tr, o.h) ELSE {ObsK(tr, r)}) :
-                       c.k = "F" /\ o.reof = (o.off + o.rcount >= c.sz)
+                 \* (through the handle of a symbolic link the code follows the link for the bytes but
+                 \* computes eof from the link's own attributes: a sequential matter of the READ rules
+                 \* (C01, READ of a non-regular object: "either"), not constrained here)
+                 /\ r = o.h => \E c \in KStates(i, s, tr, o.h) :
+                                  c.k = "F" /\ o.reof = (o.off + o.rcount >= c.sz)
     [] OTHER -> TRUE                           \* READ of a directory / dangling link: either
 
 ReadTypeOk(i, s, tr, o) ==
@@ -196,11 +199,33 @@ Succ(i, s, tr, o) == IF o.proc \in MutProcs THEN MutSucc(i, tr, o)
 \* stale cached one when caches are enabled, minus entries that are missing now; everything else
 \* (types, completeness, duplicates) as in the ideal rule.  Only tried where the ideal rule rejects.
 DevRd == "Dev_ReaddirNotASnapshot"
+NamesInD(tr, p) == {Last(q) : q \in Children(tr, p)}
 RdOps(i) == {j \in 1..NOps(i) : Ops(i)[j].proc \in {"READDIR", "READDIRPLUS"}}
+\* Dev_ReaddirplusAttrsNotASnapshot.  READDIRPLUS takes the names from one directory read but fetches
+\* the attributes of every entry afterwards, one Lstat per entry: the reply can pair the type an entry
+\* had early during the request with the type another entry got later (x REG, y LNK -> RENAME y x,
+\* MKDIR y -> x LNK, y DIR; reply: x REG, y DIR).  Exact condition: the names are the ideal listing at
+\* the linearization point and every reported type is a type that entry had in some state since the
+\* request became ready.  Only tried where the ideal rule rejects.
+DevRdAttr == "Dev_ReaddirplusAttrsNotASnapshot"
+\* what a pending READDIR / READDIRPLUS could have seen of its directory: [dir, names, kinds] per state
+ObsD(tr, p) == [dir |-> IsDir(tr, p), names |-> IF IsDir(tr, p) THEN NamesInD(tr, p) ELSE {},
+                kinds |-> [n \in (IF IsDir(tr, p) THEN NamesInD(tr, p) ELSE {}) |-> Kind(tr, Append(p, n))]]
 SnapUpd(i, sn, d2, t2) ==
-  IF ~Known(DevRd) THEN EmptyFn
+  IF ~Known(DevRd) /\ ~Known(DevRdAttr) THEN EmptyFn
   ELSE [j \in {k \in RdOps(i) : Ready(i, d2, k)} |->
-          (IF j \in DOMAIN sn THEN sn[j] ELSE {}) \cup {ObsL(t2, Ops(i)[j].h)}]
+          (IF j \in DOMAIN sn THEN sn[j] ELSE {}) \cup {ObsD(t2, Ops(i)[j].h)}]
+ReaddirAttrDevOk(i, s, sn, tr, j) ==
+  LET o == Ops(i)[j]
+      got == Rng(o.rnames)
+  IN /\ Known(DevRdAttr) /\ j \in DOMAIN sn /\ o.ok /\ o.rcomplete /\ o.proc = "READDIRPLUS"
+     /\ ~ReadTypeOk(i, s, tr, o)
+     /\ Len(o.rnames) = Cardinality(got)
+     /\ \E l \in LStates(i, s, tr, o.h) : l.dir /\ got = l.names
+     /\ \A x \in DOMAIN o.rnames :
+          \/ o.rtypes[x] = ""
+          \/ \E c \in KStates(i, s, tr, Append(o.h, o.rnames[x])) : o.rtypes[x] = TypeName(c.k)
+          \/ \E rec \in sn[j] : o.rnames[x] \in rec.names /\ o.rtypes[x] = TypeName(rec.kinds[o.rnames[x]])
 ReaddirDevOk(i, s, sn, tr, j) ==
   LET o == Ops(i)[j]
       got == Rng(o.rnames)
@@ -219,6 +244,8 @@ Accepting == done = 1..NOps(h) /\ t = TLCGet(Pre(h)).ft
 \* --------------------------------------------------------------- final-state clause (independent of the search)
 Tab(i) == Rng(H(i).tab)
 Byp(i) == Rng(H(i).byp)
+TabPairs(i) == {<<e.i, e.p>> : e \in Tab(i)}
+BypPairs(i) == {<<e.i, e.p>> : e \in Byp(i)}
 NamesIn(tr, p) == {Last(q) : q \in Children(tr, p)}
 \* Dev_CachePutAfterInvalidate.  Lookup / GetAttr / ReadDir read the backend and then store what
 \* they read in the attribute / directory cache; a mutation that completes (and invalidates) in
@@ -251,10 +278,15 @@ RemovedByRemove(i, p) == \E m \in OkMuts(i) : m.proc = "REMOVE" /\ C(m) = p
 FinalFails(i) ==
   LET ft == FinalT(i) IN
   (IF H(i).badnodes > 0 THEN {[why |-> "a handle table entry is not a node with a path", dev |-> ""]} ELSE {})
-  \cup (IF \E e \in Tab(i) : ~\E b \in Byp(i) : b.p = e.p /\ b.i = e.i
+  \* (pathHandles is the inverse of handles iff both maps are the same set of (id, path) pairs)
+  \cup (IF TabPairs(i) \ BypPairs(i) # {}
         THEN {[why |-> "handle table: pathHandles is not the inverse of handles (an id whose path maps to another id or to none)", dev |-> ""]} ELSE {})
-  \cup (IF \E b \in Byp(i) : ~\E e \in Tab(i) : e.p = b.p /\ e.i = b.i
+  \cup (IF BypPairs(i) \ TabPairs(i) # {}
         THEN {[why |-> "handle table: pathHandles names an id that the table does not map to that path", dev |-> ""]} ELSE {})
+  \* re-export rounds (Unexport, then all clients MNT + READDIRPLUS at once): after every round the two
+  \* maps have the same size and no (id, path) pair is in one of them only
+  \cup (IF \E r \in DOMAIN H(i).rounds.ntab : H(i).rounds.ntab[r] # H(i).rounds.nbyp[r] \/ H(i).rounds.nun[r] # 0
+        THEN {[why |-> "handle table after a round of concurrent MNT + READDIRPLUS on a re-exported tree: pathHandles is not the inverse of handles (two handles for one path / an id the path index does not know)", dev |-> ""]} ELSE {})
   \* attr / dirc list the unexpired entries only (k = "N": negative entry)
   \cup {[why |-> "an unexpired attribute cache entry names an object that does not exist (or not with that type) in the backend",
          dev |-> IF TouchedAt(i, a.p) THEN DevPut ELSE ""] : a \in {x \in Rng(H(i).attr) : x.k # "N" /\ Kind(ft, x.p) # x.k}}
@@ -270,8 +302,17 @@ FinalBad(i) == {f.why : f \in {x \in FinalFails(i) : ~Known(x.dev)}}
 FinalDev(i) == {f.dev : f \in {x \in FinalFails(i) : Known(x.dev)}}
 EventBad(i) == {e.ev \o ": " \o e.what : e \in Rng(H(i).events)}
 
+\* fileids: LOOKUP and GETATTR replies carry the object's fileid (logged as a token per value).  A
+\* fileid is a function of the path the handle denotes: within one history two replies about the
+\* same path carry the same fileid and replies about different paths different ones - a reply
+\* carrying another object's identity reflects a state the object was never in.
+FidPairs(i) == {<<IF o.proc = "LOOKUP" THEN C(o) ELSE o.h, o.rfid>> :
+                  o \in {x \in Rng(Ops(i)) : x.proc \in {"LOOKUP", "GETATTR"} /\ x.ok /\ x.rfid # ""}}
+FidBad(i) == IF \E a, b \in FidPairs(i) : (a[1] = b[1] /\ a[2] # b[2]) \/ (a[1] # b[1] /\ a[2] = b[2])
+             THEN {"reply: a LOOKUP / GETATTR reply carries the fileid of another object (or two fileids for one path)"} ELSE {}
+
 Diag0(i) == [acc |-> FALSE, accdev |-> {}, n |-> 0, best |-> -1, bdone |-> {}, blocked |-> {}, full |-> FALSE,
-             fbad |-> FinalBad(i), fdev |-> FinalDev(i), ebad |-> EventBad(i), searched |-> Searched(i), nops |-> NOps(i)]
+             fbad |-> FinalBad(i), fdev |-> FinalDev(i), ebad |-> EventBad(i) \cup FidBad(i), searched |-> Searched(i), nops |-> NOps(i)]
 
 Init == /\ h \in 1..NH
         /\ done = {}
@@ -288,6 +329,7 @@ Step == /\ Searched(h)
              /\ done' = done \cup {j}
              /\ \/ \E t2 \in Succ(h, seen, t, Ops(h)[j]) : t' = t2 /\ dv' = dv
                 \/ ReaddirDevOk(h, seen, snap, t, j) /\ t' = t /\ dv' = dv \cup {DevRd}
+                \/ ReaddirAttrDevOk(h, seen, snap, t, j) /\ t' = t /\ dv' = dv \cup {DevRdAttr}
              /\ seen' = IF Stale(h) /\ t' # t THEN SeenAdd(seen, t') ELSE seen
              /\ snap' = SnapUpd(h, snap, done', t')
         /\ UNCHANGED h
